@@ -2,30 +2,46 @@
    Theorems about coq/C11/Model.v (see Proofs.v); every statement is closed under the global context. *)
 From Coq Require Import List NArith Bool.
 From V.C11 Require Import Model Proofs.
+From V.C11 Require HSModel HSProofs.
 Import ListNotations.
 Open Scope N_scope.
 
-(* Event grammar per peer, for every configuration and every history of events in which Connection
-   tasks close promptly (no Gate / gated TaskDie): NotificationStreamOpened and
-   NotificationStreamClosed alternate strictly, starting with Opened, and no
-   NotificationStreamOpenFailure is reported between an Opened and its Closed, and
-   NotificationReceived is delivered only between an Opened and its Closed — also when the
-   notification was still queued in the handle while the stream closed (NotifyDie)
-   (`grammar` returns None on the first offending event). *)
+(* Event grammar per peer, for every configuration and EVERY history of events (user commands, remote
+   behaviour, validation answers, disconnects, Connection tasks that close their substreams promptly, slowly
+   or never): what the user is handed is such that NotificationStreamOpened and NotificationStreamClosed
+   alternate strictly, starting with Opened, no NotificationStreamOpenFailure is reported between an Opened
+   and its Closed, and NotificationReceived is delivered only between an Opened and its Closed — also when
+   the notification was still queued in the handle while the stream closed (NotifyDie)
+   (`grammar` returns None on the first offending event). Holds since the repair of finding class 1:
+   NotificationProtocol reports the stream closed itself when it stops tracking it as open; the later
+   report of the Connection task is recognised by its stream identifier and ignored (Model.drain). *)
 Theorem C11_alternation :
   forall (c : cfg) (ops : list op),
-    forallb prompt_op ops = true ->
     exists h, grammar (fun _ => false) (events (fst (run c init ops))) = Some h.
-Proof. exact alternation_prompt. Qed.
+Proof. exact alternation_all. Qed.
 Print Assumptions C11_alternation.
 
-(* Without the promptness assumption the grammar fails (finding class 1): a stream whose Connection
-   task is slow to close is re-opened by the remote before the old Closed is reported. *)
-Theorem C11_alternation_refuted :
-  exists (c : cfg) (ops : list op),
-    grammar (fun _ => false) (events (fst (run c init ops))) = None.
-Proof. exact C11_alternation_refuted_pf. Qed.
-Print Assumptions C11_alternation_refuted.
+(* Before the repair (coq/C11/Before.v: the model of the code in which only the Connection task reported
+   NotificationStreamClosed, after closing its substreams): the user closes a stream whose Connection task
+   is slow to close, the remote re-opens, the old task finishes: Opened, (Validate,) Opened, Closed, Closed
+   — and the late Closed removes the NEW sink from the handle, which kills the new stream. The same history
+   in the repaired model: Opened, Closed, Validate, Opened. *)
+Theorem C11_alternation_before_fix_refuted :
+  Before.events (fst (Before.run cfg_w_before Before.init w_slow_close_before)) =
+    [Before.UOpened 0 Before.DOut; Before.UValidate 0; Before.UOpened 0 Before.DIn; Before.UClosed 0; Before.UClosed 0] /\
+  Before.grammar (fun _ => false) (Before.events (fst (Before.run cfg_w_before Before.init w_slow_close_before))) = None /\
+  events (fst (run cfg_w init w_slow_close)) = [UOpened 0 DOut; UClosed 0; UValidate 0; UOpened 0 DIn].
+Proof. exact C11_alternation_before_fix_refuted_pf. Qed.
+Print Assumptions C11_alternation_before_fix_refuted.
+
+(* The invariant behind it, in every reachable state: the user sees a stream of a peer open (the handle
+   lists the peer) exactly when the protocol tracks one as open, and the sink the handle holds is the one
+   of that stream. *)
+Theorem C11_user_view_is_protocol_view :
+  forall (c : cfg) (s : st), reachable c s ->
+    (forall p, hopen s p = is_open (ps s p)) /\ (forall p k, ps s p = Some (Open k) -> hsink s p = Some k).
+Proof. exact C11_user_view_is_protocol_view_pf. Qed.
+Print Assumptions C11_user_view_is_protocol_view.
 
 (* A stream is reported opened only in a step that starts with the inbound substream accepted
    (local handshake being sent or sent, which only on_validation_result(Accept) and the auto-accept
@@ -36,25 +52,30 @@ Theorem C11_opened_needs_accepted_inbound :
 Proof. exact step_opened. Qed.
 Print Assumptions C11_opened_needs_accepted_inbound.
 
-(* When the connection to a peer with an open stream is lost, NotificationStreamClosed is reported in
-   the same step (prompt histories; with a slow Connection task it is reported when the task is done). *)
+(* When the connection to a peer with an open stream is lost, NotificationStreamClosed is handed to the user
+   in the same step, in every reachable state — however long the Connection task takes to close. *)
 Theorem C11_closed_on_disconnect :
-  forall (c : cfg) (ops : list op) (x : st * list uev * list call) (p : peer) (k : N)
-         (s' : st) (ev : list uev) (calls : list call),
-    forallb prompt_op ops = true -> In x (fst (run c init ops)) ->
-    conn (fst (fst x)) p = true -> ps (fst (fst x)) p = Some (Open k) ->
-    step c (fst (fst x)) (ConnClosed p) = Some (s', ev, calls) -> In (UClosed p) ev.
-Proof. exact closed_on_disconnect_prompt. Qed.
+  forall (c : cfg) (s : st) (p : peer) (k : N) (s' : st) (ev : list uev) (calls : list call),
+    reachable c s -> conn s p = true -> ps s p = Some (Open k) ->
+    step c s (ConnClosed p) = Some (s', ev, calls) -> In (UClosed p) ev.
+Proof. exact C11_closed_on_disconnect_pf. Qed.
 Print Assumptions C11_closed_on_disconnect.
 
 Theorem C11_closed_on_user_close :
-  forall (c : cfg) (ops : list op) (x : st * list uev * list call) (p : peer) (k : N)
-         (s' : st) (ev : list uev) (calls : list call),
-    forallb prompt_op ops = true -> In x (fst (run c init ops)) ->
-    ps (fst (fst x)) p = Some (Open k) ->
-    step c (fst (fst x)) (CmdClose p) = Some (s', ev, calls) -> In (UClosed p) ev.
-Proof. exact closed_on_user_close_prompt. Qed.
+  forall (c : cfg) (s : st) (p : peer) (k : N) (s' : st) (ev : list uev) (calls : list call),
+    reachable c s -> ps s p = Some (Open k) ->
+    step c s (CmdClose p) = Some (s', ev, calls) -> In (UClosed p) ev.
+Proof. exact C11_closed_on_user_close_pf. Qed.
 Print Assumptions C11_closed_on_user_close.
+
+(* A NotificationStreamClosed report that the handle does not ignore removes the sink it holds for the peer;
+   in no step of any history is that the sink of a Connection task that is still running (the task would
+   see its notification channels closed and end the stream): the third component of drain is empty. *)
+Theorem C11_delivered_close_kills_nothing :
+  forall (c : cfg) (s : st) (o : op) (s1 : st) (ev : list uev) (cl : list call) (s2 : st) (dr : list peer) (ks : list N),
+    reachable c s -> main_handler c s o = Some (s1, ev, cl) -> drain s1 ev = (s2, dr, ks) -> ks = [].
+Proof. exact C11_delivered_close_kills_nothing_pf. Qed.
+Print Assumptions C11_delivered_close_kills_nothing.
 
 (* ---- no stuck states ----
    The run function stops at the first stuck step (a debug_assert!(false) / Poisoned survivor of the
@@ -125,9 +146,11 @@ Print Assumptions C11_inbound_needs_accept.
 (* ---- the open-request ledger ----
    `ledger` runs a history and keeps, per peer, whether an open request the protocol took up is still
    owed an answer (owed_next: cleared by Opened / OpenFailure for the peer only). Outside finding
-   classes 2 and 3 (ledger_env), whoever is owed an answer has the outbound half in progress and the
+   class 3 (ledger_env: the user does not Reject the peer's inbound substream while his own open request
+   for that peer is in progress), whoever is owed an answer has the outbound half in progress and the
    environment still owes the protocol the event that will produce the answer (obligation): at
-   quiescence nothing is owed. *)
+   quiescence nothing is owed. (The former second exclusion, finding class 2, is gone: repaired in the
+   code, see C11_no_dead_substream_id and C11_open_answered_before_fix_refuted.) *)
 Theorem C11_open_answered :
   forall (c : cfg) (ops : list op) (s : st) (owed : peer -> bool),
     ledger_env c init ops = true -> ledger c init (fun _ => false) ops = Some (s, owed) ->
@@ -150,14 +173,31 @@ Theorem C11_at_most_one_answer :
 Proof. exact C11_at_most_one_answer_pf. Qed.
 Print Assumptions C11_at_most_one_answer.
 
-(* Finding class 2: after the outbound substream of an accepted inbound stream fails to open, the
-   failed id stays in pending_open; the next open request adopts it although the transport owes
-   nothing for it: the request is owed an answer that nothing will ever produce. *)
-Theorem C11_open_answered_refuted :
-  exists (c : cfg) (ops : list op) (s : st) (owed : peer -> bool),
-    ledger c init (fun _ => false) ops = Some (s, owed) /\ owed 0 = true /\ obligation s 0 = false.
-Proof. exact C11_open_answered_refuted_pf. Qed.
-Print Assumptions C11_open_answered_refuted.
+(* The former finding class 2, repaired (fix: commit). In every reachable state, whatever the user and
+   the environment did: the substream id an outbound attempt in progress waits for (OutboundInitiated,
+   Validating{outbound: OutboundInitiated}) is owed by the transport to this peer, and so is every entry
+   of pending_outbound: no open request ever waits for a substream id whose open has already failed. *)
+Theorem C11_no_dead_substream_id :
+  forall (c : cfg) (s : st), reachable c s ->
+    (forall p x, (ps s p = Some (OutInit x) \/ exists d i, ps s p = Some (Validating d (OInit x) i)) -> In (x, p) (spend s)) /\
+    (forall x q, In (x, q) (pend s) -> In (x, q) (spend s)).
+Proof. exact C11_no_dead_substream_id_pf. Qed.
+Print Assumptions C11_no_dead_substream_id.
+
+(* Before the repair (on_open_old: the arm `Closed { pending_open: Some(id) }` of on_open_substream
+   adopted the remembered id unconditionally): after the outbound substream of an accepted inbound
+   stream fails to open, the failed id 0 stays in pending_open, pending_outbound and the transport no
+   longer know it; the next open request (the handle gate is open, the history is inside ledger_env) is
+   taken up with that id: in progress, and nothing will ever produce its answer. The repaired arm asks
+   the transport for a new substream instead. *)
+Theorem C11_open_answered_before_fix_refuted :
+  exists (c : cfg) (pre : list op) (s s' : st),
+    exec c init pre = Some s /\ ledger_env c init pre = true /\ hopen s 0 = false /\
+    ps s 0 = Some (Closed (Some 0)) /\ pend_find 0 (pend s) = None /\ spend s = [] /\
+    on_open_old c s 0 = Some (s', [], []) /\ in_progress (ps s' 0) = true /\ obligation s' 0 = false /\
+    exists s2, on_open c s 0 = Some (s2, [], [COpen 0 1]) /\ obligation s2 0 = true.
+Proof. exact C11_open_answered_before_fix_refuted_pf. Qed.
+Print Assumptions C11_open_answered_before_fix_refuted.
 
 (* Finding class 3: the user's Reject of the peer's inbound substream while the user's own open
    request for that peer is in progress drops the request without an answer (pinned by the
@@ -264,31 +304,49 @@ Theorem C11_lazy_no_stuck :
 Proof. exact C11_lazy_no_stuck_pf. Qed.
 Print Assumptions C11_lazy_no_stuck.
 
-(* nothing is lost and nothing is reordered: what the user was handed from the queue, followed by what is
-   still queued (in the channel or with a waiting producer), is exactly what was emitted, in order; *)
+(* and what the user is handed obeys the event grammar: for every capacity and every schedule of protocol
+   events and polls — a user who polls late, rarely or never — NotificationStreamOpened and
+   NotificationStreamClosed alternate per peer, no NotificationStreamOpenFailure and every
+   NotificationReceived between an Opened and its Closed (`levents`: the events returned by the polls, in
+   order). Invariant PLazyAlt.LI: after the handle has processed what is still queued, its gate is open
+   exactly for the peers whose PeerState is Open, with the sink of that stream. *)
+Theorem C11_lazy_alternation :
+  forall (c : cfg) (cap : nat) (gs : list lop),
+    exists h, grammar (fun _ => false) (levents (fst (lrun c cap linit gs))) = Some h.
+Proof. exact lazy_alternation. Qed.
+Print Assumptions C11_lazy_alternation.
+
+(* nothing is lost and nothing is reordered: what the polls took from the queue (events handed to the user
+   and, in front of them, Closed reports that the handle ignores), followed by what is still queued (in the
+   channel or with a waiting producer), is exactly what was emitted, in order; *)
 Theorem C11_event_channel_no_loss :
   forall (c : cfg) (cap : nat) (gs : list lop),
     ltaken_run c cap linit gs ++ lq (lfinal c cap linit gs) = lemitted_run c cap linit gs.
 Proof. exact C11_event_channel_no_loss_pf. Qed.
 Print Assumptions C11_event_channel_no_loss.
 
-(* what a step takes from the queue is what `handle.next()` returns, and a poll always gets the oldest
-   queued event, whatever the capacity *)
+(* one step: what it takes from the queue is accounted for, and when the poll hits an event in the channel
+   that the handle does not ignore, what `handle.next()` returns is what the handle makes of the events taken
+   (Model.delivered: ignored reports vanish, a Connection task's report that is not ignored is handed out
+   as NotificationStreamClosed); a poll gets the oldest such event, whatever the capacity *)
 Theorem C11_event_channel_step :
   forall (c : cfg) (cap : nat) (l : lst) (g : lop) (l' : lst) (ev : list uev) (cl : list call),
     lstep c cap l g = Some (l', ev, cl) ->
-    ltaken l g ++ lq l' = lq l ++ lemitted c cap l g /\ (ltaken l g <> [] -> ev = ltaken l g).
+    ltaken cap l g ++ lq l' = lq l ++ lemitted c cap l g /\
+    (snd (fst (poll_events cap (ls l) (lq l))) <> None \/ g <> LPoll -> ev = delivered (ls l) (ltaken cap l g)).
 Proof. exact lstep_fifo. Qed.
 Print Assumptions C11_event_channel_step.
 
 Theorem C11_poll_delivers_oldest :
-  forall (c : cfg) (cap : nat) (l : lst) (e : uev) (rest : list uev),
-    lq l = e :: rest -> exists l' cl, lstep c cap l LPoll = Some (l', [e], cl).
+  forall (c : cfg) (cap : nat) (l : lst) (dd : list uev) (e : uev) (rest : list uev),
+    poll_events cap (ls l) (lq l) = (dd, Some e, rest) ->
+    exists l' cl, lstep c cap l LPoll = Some (l', delivered (ls l) [e], cl).
 Proof. exact lpoll_delivers. Qed.
 Print Assumptions C11_poll_delivers_oldest.
 
 (* the capacity only delays: two capacities, the same schedule, no event scheduled while the loop is
-   parked: same protocol states, same queue, same deliveries at every step *)
+   parked and no poll cut short by the capacity (poll_cut: every event in the channel was an ignored report
+   and more is queued with waiting producers): same protocol states, same queue, same deliveries at every step *)
 Theorem C11_capacity_only_delays :
   forall (c : cfg) (cap1 cap2 : nat) (gs : list lop),
     never_blocked c cap1 linit gs = true -> never_blocked c cap2 linit gs = true ->
@@ -297,6 +355,107 @@ Theorem C11_capacity_only_delays :
     snd (lrun c cap1 linit gs) = snd (lrun c cap2 linit gs).
 Proof. exact C11_capacity_only_delays_pf. Qed.
 Print Assumptions C11_capacity_only_delays.
+
+(* ---- received notifications and the stream identifier ----
+   handle.rs hands a received notification to the user only if the sink it holds for the peer belongs to the
+   stream the notification arrived on. With a user who drains the handle after every event that is the gate
+   test `hopen` of Model.step: in every reachable state an open gate holds the sink of the newest Connection
+   task of the peer, the only one whose notifications the model forwards. *)
+Theorem C11_gate_is_newest_sink :
+  forall (c : cfg) (s : st) (p : peer),
+    reachable c s -> hopen s p = true -> hsink s p = lastt s p /\ lastt s p <> None.
+Proof. intros c s p R. apply (reachable_GSInv c s R). Qed.
+Print Assumptions C11_gate_is_newest_sink.
+
+(* With a late-polling user the test is modelled as written (Model.sink_is): for every schedule the event
+   queue holds lifecycle events only, *)
+Theorem C11_lazy_queue_lifecycle_only :
+  forall (c : cfg) (cap : nat) (gs : list lop) (x : lst * list uev * list call),
+    In x (fst (lrun c cap linit gs)) -> Forall not_notif (lq (fst (fst x))).
+Proof. exact C11_lazy_queue_lifecycle_only_pf. Qed.
+Print Assumptions C11_lazy_queue_lifecycle_only.
+
+(* and one `handle.next()` returns NotificationReceived only when no lifecycle event is queued, for a peer
+   whose gate is open (the user has seen Opened and not yet Closed), and only for a notification that arrived
+   on the stream whose sink the handle holds: never a leftover of an earlier stream period of the peer. *)
+Theorem C11_lazy_notification_in_its_period :
+  forall (c : cfg) (cap : nat) (l l' : lst) (ev : list uev) (cl : list call) (p : peer),
+    Forall not_notif (lq l) -> lstep c cap l LPoll = Some (l', ev, cl) -> In (UNotif p) ev ->
+    snd (fst (poll_events cap (ls l) (lq l))) = None /\
+    exists k, In (p, k) (lnf l) /\ hopen (ls l) p = true /\ hsink (ls l) p = Some k.
+Proof. exact lpoll_notif. Qed.
+Print Assumptions C11_lazy_notification_in_its_period.
+
+(* a leftover notification of period 0 is discarded in period 1 (it was handed out before the handle
+   compared stream identifiers: fix 810eaf6 of C12) *)
+Example C11_lazy_stale_notification_dropped :
+  flat_map (fun x => snd (fst x)) (fst (lrun cfg_w 5 linit w_stale_notif)) =
+  [UOpened 0 DOut; UClosed 0; UValidate 0; UOpened 0 DIn].
+Proof. vm_compute. reflexivity. Qed.
+
+(* ---- the HandshakeService on its own (HSModel.v: the map `substreams` with handshake state, carrier and
+   negotiation timer per substream, the queue `ready`, poll_next with the visiting order as an input) ----
+   The main model treats it as two membership bits per peer and lets handshake events happen only for a
+   substream the service holds (guards hsI / hsO of main_handler: `enabled`). That assumption is a theorem
+   of the component: whatever the history of calls, carrier events, timeouts and polls, and whatever order
+   the map is visited in, a poll reports an event only for a key that is in the map; *)
+Theorem C11_hs_events_only_for_held_substreams :
+  forall (h : HSModel.hs) (ord : list HSModel.key) (h' : HSModel.hs) (k : HSModel.key),
+    (exists rd, HSModel.poll h ord = (h', HSModel.PNeg k rd)) \/ HSModel.poll h ord = (h', HSModel.PErr k) ->
+    HSModel.has k h = true.
+Proof. exact HSProofs.poll_held. Qed.
+Print Assumptions C11_hs_events_only_for_held_substreams.
+
+(* Negotiated hands the substream out: the key is gone, so it is reported at most once; *)
+Theorem C11_hs_negotiated_hands_out :
+  forall (h : HSModel.hs) (ord : list HSModel.key) (h' : HSModel.hs) (k : HSModel.key) (rd : bool),
+    HSModel.poll h ord = (h', HSModel.PNeg k rd) -> HSModel.has k h' = false.
+Proof. exact HSProofs.poll_neg_removes. Qed.
+Print Assumptions C11_hs_negotiated_hands_out.
+
+(* NegotiationError leaves the substream in the map: the owner has to remove it (on_handshake_event and
+   on_substream_open_failure do; the third-round seeded change dropped those calls), else the error repeats; *)
+Theorem C11_hs_error_keeps_substream :
+  forall (h : HSModel.hs) (ord : list HSModel.key) (h' : HSModel.hs) (k : HSModel.key),
+    HSModel.poll h ord = (h', HSModel.PErr k) -> HSModel.has k h' = true.
+Proof. exact HSProofs.poll_err_keeps. Qed.
+Print Assumptions C11_hs_error_keeps_substream.
+
+(* a substream whose negotiation timer (NEGOTIATION_TIMEOUT) fired is failed as soon as the loop reaches it,
+   whatever its carrier offers; *)
+Theorem C11_hs_timeout_fails :
+  forall (e : HSModel.hent), HSModel.e_timed e = true -> HSModel.visit1 e = HSModel.VErr.
+Proof. exact HSProofs.visit1_timed. Qed.
+Print Assumptions C11_hs_timeout_fails.
+
+(* the keys of the map stay unique under every step; *)
+Theorem C11_hs_keys_unique :
+  forall (h : HSModel.hs) (o : HSModel.hop),
+    HSProofs.uniq (HSModel.ents h) -> HSProofs.uniq (HSModel.ents (fst (HSModel.hstep h o))).
+Proof. exact HSProofs.step_uniq. Qed.
+Print Assumptions C11_hs_keys_unique.
+
+(* a key that is not in the map is silent (a removed substream produces no event). *)
+Theorem C11_hs_removed_is_silent :
+  forall (h : HSModel.hs) (ord : list HSModel.key) (h' : HSModel.hs) (k : HSModel.key),
+    HSModel.has k h = false -> (forall rd, ~ In (k, rd) (HSModel.ready h)) ->
+    (forall rd, HSModel.poll h ord <> (h', HSModel.PNeg k rd)) /\ HSModel.poll h ord <> (h', HSModel.PErr k).
+Proof. exact HSProofs.poll_silent. Qed.
+Print Assumptions C11_hs_removed_is_silent.
+
+(* Observation (reproduced with the real HandshakeService, corpus w14; outside the text of C11): remove_inbound /
+   remove_outbound do not purge `ready`, and is_empty() only looks at the map. When a completed handshake is
+   queued in `ready` and another substream of the same poll fails first, the handler removes both substreams,
+   the queued entry stays; if the peer's next substream of that direction is handed in before the service is
+   polled again (the biased select skips the service while the map is empty), pop_event matches the stale
+   entry with the NEW substream: Negotiated with the handshake of the old one, although nothing was read from
+   (or written to) the new one. *)
+Theorem C11_hs_stale_ready_refuted :
+  map snd (HSModel.hrun HSModel.hs0 HSProofs.w_stale) =
+  [HSModel.PPending; HSModel.PPending; HSModel.PPending; HSModel.PPending; HSModel.PErr 1;
+   HSModel.PPending; HSModel.PPending; HSModel.PPending; HSModel.PNeg 0 true].
+Proof. exact HSProofs.stale_ready_run. Qed.
+Print Assumptions C11_hs_stale_ready_refuted.
 
 Example C11_parked_handler_resumes :
   map (fun x => (parked 1 (fst (fst x)), snd (fst x), snd x)) (fst (lrun cfg_w0 1 linit w_parked)) =
@@ -308,7 +467,7 @@ Example C11_parked_handler_resumes :
    (false, [UFail 0 E_REJECTED], [])].
 Proof. vm_compute. reflexivity. Qed.
 
-(* non-vacuity: a prompt history that opens a stream and closes it *)
+(* non-vacuity: a history that opens a stream and closes it *)
 Example C11_notification_dropped_after_close :
   events (fst (run cfg_w init (open_by_user ++ [Notify 0; NotifyDie 0 false]))) =
   [UOpened 0 DOut; UNotif 0; UClosed 0].
@@ -336,6 +495,7 @@ Example C11_send_delivered_in_its_period :
 Proof. vm_compute. split; reflexivity. Qed.
 
 Example C11_open_close_run :
-  forallb prompt_op (open_by_user ++ [CmdClose 0]) = true /\
-  events (fst (run cfg_w init (open_by_user ++ [CmdClose 0]))) = [UOpened 0 DOut; UClosed 0].
+  events (fst (run cfg_w init (open_by_user ++ [CmdClose 0]))) = [UOpened 0 DOut; UClosed 0] /\
+  (* a slow close: the user is told at once, the task's own report later is ignored *)
+  events (fst (run cfg_w init (open_by_user ++ [Gate 0; CmdClose 0; Release 0 false]))) = [UOpened 0 DOut; UClosed 0].
 Proof. vm_compute. split; reflexivity. Qed.
